@@ -6,6 +6,7 @@ C07 — specification side, written from the W3C texts (not from the code):
     (dates/times), §10.2 (QName), §11.1-11.2 (binary; the `lt`/`gt` of binaries exist from 3.1 on)
   * XPath 3.1 §3.7.2 / XPath 2.0 §3.5.2 (general comparisons, with and without XPath 1.0
     compatibility mode), XPath 1.0 §3.4 (for the 1.0 parser)
+  * XPath 3.1 §2.1.2 (dynamic context: implicit timezone) — `withImplicitTz`, `generalAllowedCtx`, `valueAllowedCtx`
   * XPath 3.1 §2.4.3 / F&O 3.1 §7.3.1 fn:boolean (effective boolean value), §3.8 (and/or), §3.12 (if)
   * XPath 3.1 §2.3.4 (errors and optimisation): where several outcomes are permitted the spec is
     the *set* of permitted outcomes (`…Allowed`).
@@ -430,5 +431,24 @@ def valueAllowed (m : Mode) (op : Op) (L Rr : List Item) : Option (List Out) :=
        | .error .unsupported => none
        | .error e => some [.err e])
     | _, _ => none
+
+/-! ### the implicit timezone of the dynamic context (XPath 3.1 §2.1.2, F&O 3.1 §9.?) -/
+
+/-- "Implicit timezone: the timezone to be used when a date, time, or dateTime value that does not
+have a timezone is used in a comparison or arithmetic operation."  `itz` in minutes, `none` = the
+context provides none (then UTC is taken, see `instant`). -/
+def withImplicitTz (itz : Option Int) : Item → Item
+  | .atom (.date v) => .atom (.date (match v.tz with | some _ => v | none => { v with tz := itz }))
+  | .atom (.dtm v) => .atom (.dtm (match v.tz with | some _ => v | none => { v with tz := itz }))
+  | .atom (.time v) => .atom (.time (match v.tz with | some _ => v | none => { v with tz := itz }))
+  | it => it
+
+/-- general comparison under a dynamic context with implicit timezone `itz` -/
+def generalAllowedCtx (itz : Option Int) (m : Mode) (op : Op) (L Rr : List Item) : Option (List Out) :=
+  generalAllowed m op (L.map (withImplicitTz itz)) (Rr.map (withImplicitTz itz))
+
+/-- value comparison under a dynamic context with implicit timezone `itz` -/
+def valueAllowedCtx (itz : Option Int) (m : Mode) (op : Op) (L Rr : List Item) : Option (List Out) :=
+  valueAllowed m op (L.map (withImplicitTz itz)) (Rr.map (withImplicitTz itz))
 
 end EPV.CmpSpec
